@@ -332,8 +332,10 @@ def relayState (cfg : Cfg) (answers : List (Option Bool)) (maxSend : Nat) (p : P
 /-- situations of the origin's certificate exercised by the harness -/
 inductive CertSituation
   | trusted | selfSigned | untrustedIssuer | wrongName | expired
-  /-- not a TLS server at all / handshake aborted by the origin -/
+  /-- not a TLS server at all: answers the ClientHello with clear text -/
   | garbage
+  /-- goes away during the handshake: the proxy's socket reports a connection reset -/
+  | reset
   deriving DecidableEq, Repr
 
 def chainOk : CertSituation → Bool
@@ -347,6 +349,7 @@ def nameOk (s : CertSituation) (p : WrapParams) : Bool :=
 /-- chain verification unless `CERT_NONE`, name check iff `check_hostname` -/
 def refHandshake (s : CertSituation) (p : WrapParams) : HsOut :=
   if s = .garbage then .sslError
+  else if s = .reset then .osError
   else if p.verifyNone then .ok
   else if chainOk s && (!p.checkHostname || nameOk s p) then .ok
   else .certVerification
